@@ -1267,6 +1267,21 @@ pub fn shape(h: &History) -> String {
 // ---------------------------------------------------------------------------------------
 
 pub fn weird_language(rng: &mut Rng) -> String {
+    // a third of the time: characters whose lower- or upper-case form has a different UTF-8
+    // length or a different number of characters (Kelvin sign, Ohm sign, dotted capital I,
+    // capital sharp s, ligatures, titlecase digraphs) - alone, inside or at the end of a
+    // three-character code: anything that normalises case and then slices trips over them
+    if rng.chance(1, 3) {
+        let special = ["\u{212a}", "\u{2126}", "\u{212b}", "\u{130}", "\u{23a}", "\u{23e}", "\u{1e9e}", "\u{df}", "\u{fb01}", "\u{1c5}", "\u{149}", "\u{3a3}"];
+        let c = *rng.pick(&special);
+        return match rng.below(5) {
+            0 => c.to_string(),
+            1 => format!("{}m", c),
+            2 => format!("a{}", c),
+            3 => format!("a{}{}x", c, '\u{e9}'),
+            _ => format!("ab{}", c),
+        };
+    }
     match rng.below(12) {
         0 => String::new(),
         1 => "a".into(),
